@@ -1,5 +1,6 @@
 import ErbiumModel.Model.DnsRelay
 import ErbiumModel.Lemmas.DnsMessage
+import ErbiumModel.Lemmas.DnsTruncated
 /-! # C04 — every DNS response is well-formed and respects the transport's size limit -/
 namespace Erbium.Props.C04
 open Erbium Erbium.DnsWire Erbium.DnsRelay
@@ -141,5 +142,44 @@ theorem C04_complete_response_decodes_to_itself (p : Pkt) (hw : WfPkt p) (size :
     (hc : Complete p size wire) (hsz : wire.length < 65536) :
     serialiseWithSize p size = some wire ∧ parse wire = .ok p :=
   ⟨complete_serialise p size wire hs hw.rcode hc, message_roundtrip p hw size wire hc hsz⟩
+
+/-- **C04 (every response).** Whatever `serialise_with_size` returns for a message of the decoder's shape, at any
+    limit ≥ 512 and within 65535 octets, parses — either to the message itself, or to the message cut at a record
+    boundary (`truncated`: the first `ka`, `kn`, `kd` records of the sections, TC set, EDNS record gone), where
+    `CutAt` says records are omitted only from the end: inside the answers (then no authority and no additional
+    records follow), inside the authority section (answers complete) or inside the additional section (both
+    complete). The header counts the decoder followed are the numbers of records present. -/
+theorem C04_every_response_decodes (p : Pkt) (hw : WfPkt p) (size : Nat) (hs : 512 ≤ size) (wire : Bytes)
+    (h : serialiseWithSize p size = some wire) (hsz : wire.length < 65536) :
+    parse wire = .ok p ∨ ∃ ka kn kd, CutAt p ka kn kd ∧ parse wire = .ok (truncated p ka kn kd) := by
+  rcases serialise_cases p hw size hs wire h with hc | ⟨ka, kn, kd, hcut, hc⟩
+  · exact Or.inl (message_roundtrip p hw size wire hc hsz)
+  · exact Or.inr ⟨ka, kn, kd, hcut, message_roundtrip _ (truncated_wf hw ka kn kd) size wire hc hsz⟩
+
+/-- **C04 (TC exactly when records were omitted).** A response that was cut carries TC; a response that was not
+    carries the TC bit of the message it was built from. -/
+theorem C04_tc_iff_truncated (p : Pkt) (ka kn kd : Nat) : (truncated p ka kn kd).tc = true := rfl
+
+/-- **C04 (complete whenever it fits).** If the complete encoding of a message — obtained under any limit — is no
+    longer than the limit in force (65535 on TCP), the response at that limit is that complete encoding. -/
+theorem C04_complete_whenever_it_fits (p : Pkt) (hw : WfPkt p) (size size2 : Nat) (wire : Bytes) (hs : 512 ≤ size2)
+    (hc : Complete p size wire) (hfit : wire.length ≤ size2) : serialiseWithSize p size2 = some wire :=
+  complete_serialise p size2 wire hs hw.rcode (complete_fits hc hfit)
+
+/-! Non-vacuity: a response with forty address records does not fit 512 octets; what is returned is cut inside
+    the answer section and decodes to the message cut there (evaluated by the kernel on the executable model). -/
+def exBig : Pkt :=
+  { qid := 9, rd := true, tc := false, aa := false, qr := true, opcode := 0, cd := false, ad := false, ra := true, rcode := 0,
+    bufsize := 1232, ednsVer := some 0, ednsDo := false, qdomain := [[101, 120], [99]], qclass := 1, qtype := 28,
+    answer := List.replicate 40 { domain := [[101, 120], [99]], cls := 1, rrtype := 28, ttl := 60,
+                                  rdata := .other (List.replicate 16 7) },
+    nameserver := [{ domain := [[99]], cls := 1, rrtype := 2, ttl := 60, rdata := .ns [[110], [99]] }],
+    additional := [], edns := some [] }
+example : (match serialiseWithSize exBig 512 with
+    | some w => decide (w.length ≤ 512) &&
+        (match parse w with
+         | .ok q => decide (q = truncated exBig q.answer.length 0 0) && decide (q.answer.length < 40) && q.tc
+         | .error _ => false)
+    | none => false) = true := by decide +kernel
 
 end Erbium.Props.C04
